@@ -498,11 +498,26 @@ where
 
         self.pool_size = new_pool_size;
         if is_growing {
-            for _ in 0..new_pool_size {
-                if self.queue.peek().is_none() {
-                    break;
+            if self.router.is_factory_queueing() {
+                for _ in 0..new_pool_size {
+                    if self.queue.peek().is_none() {
+                        break;
+                    }
+                    self.try_route_next_active_job(None)?;
                 }
-                self.try_route_next_active_job(None)?;
+            } else {
+                // Worker-queueing routers only backlog into the factory queue while no worker
+                // can be targeted (e.g. an empty pool). Hand the whole backlog to the workers'
+                // queues now, in order: newer jobs are routed straight to those queues and
+                // would otherwise overtake older jobs of the same key.
+                while self.queue.peek().is_some() {
+                    let backlog = self.queue.len();
+                    self.try_route_next_active_job(None)?;
+                    if self.queue.len() >= backlog {
+                        // nothing could be routed
+                        break;
+                    }
+                }
             }
         }
         Ok(())
